@@ -51,11 +51,12 @@ func loadProp(verif, id string) (*PropConfig, error) {
 type Baseline struct {
 	Claimed    map[string]bool
 	NotClaimed map[string]bool
+	Unreach    map[string]bool // reachability probes that are (legitimately) unreachable on the unchanged tree
 	All        bool // rebaselining: give every obligation the full treatment
 }
 
 func loadBaseline(path string) (*Baseline, error) {
-	bl := &Baseline{Claimed: map[string]bool{}, NotClaimed: map[string]bool{}}
+	bl := &Baseline{Claimed: map[string]bool{}, NotClaimed: map[string]bool{}, Unreach: map[string]bool{}}
 	b, err := os.ReadFile(path)
 	if err != nil {
 		return bl, err
@@ -65,7 +66,9 @@ func loadBaseline(path string) (*Baseline, error) {
 		if l == "" || strings.HasPrefix(l, "#") {
 			continue
 		}
-		if strings.HasPrefix(l, "!") {
+		if strings.HasPrefix(l, "~") {
+			bl.Unreach[strings.TrimSpace(l[1:])] = true
+		} else if strings.HasPrefix(l, "!") {
 			bl.NotClaimed[strings.TrimSpace(l[1:])] = true
 		} else {
 			bl.Claimed[l] = true
@@ -475,6 +478,9 @@ func cmdCheck(args []string) {
 		lines = append(lines, "# baseline for "+id+": obligations discharged on the unchanged tree (written by `govc check -rebaseline`)")
 		for _, r := range out.Results {
 			if r.Cover {
+				if r.Answer == "unsat" {
+					lines = append(lines, "~ "+r.ID)
+				}
 				continue
 			}
 			if r.Answer == "unsat" {
